@@ -5,9 +5,11 @@ package vpipe
 import (
 	"errors"
 	"io"
+	"time"
 	"unsafe"
 
 	"verif/engine/vs"
+	"verif/engine/vtime"
 )
 
 // ErrTransport is the error injected by FailRead/FailWrite.
@@ -25,11 +27,12 @@ type Pipe struct {
 	Closed     bool   // connection side closed
 	ClosedAt   int64  // virtual time of the first Close
 	NClose     int
-	ShortReads bool  // offer "deliver 1 byte" as an environment deviation
-	SplitRead  bool  // a Read that obtained data returns in a second step (other tasks may run in between)
-	SplitWrite bool  // a Write whose bytes were accepted returns in a second step
-	MaxRead    int   // > 0: a Read delivers at most this many bytes (keeps the library's read-ahead small)
-	CloseErr   error // what Close returns (the transport is closed all the same), e.g. a TLS close_notify failure
+	ShortReads bool          // offer "deliver 1 byte" as an environment deviation
+	SplitRead  bool          // a Read that obtained data returns in a second step (other tasks may run in between)
+	SplitWrite bool          // a Write whose bytes were accepted returns in a second step
+	MaxRead    int           // > 0: a Read delivers at most this many bytes (keeps the library's read-ahead small)
+	CloseDelay time.Duration // virtual time Close takes to return (the transport is closed at once; e.g. a lingering close)
+	CloseErr   error         // what Close returns (the transport is closed all the same), e.g. a TLS close_notify failure
 
 	Writes []int // size of every chunk accepted (for atomicity diagnostics)
 	Reads  int
@@ -155,6 +158,9 @@ func (p *Pipe) Close() error {
 	}, Objs: func(int) ([]unsafe.Pointer, []unsafe.Pointer, *vs.Task) {
 		return nil, []unsafe.Pointer{p.RObj(), p.WObj()}, nil
 	}})
+	if p.CloseDelay > 0 {
+		vtime.Sleep(p.CloseDelay)
+	}
 	return p.CloseErr
 }
 
